@@ -347,6 +347,11 @@ func c10Exec(c *mc.Ctx, v interface{}) {
 		cs.target.run(cs.input)
 	}()
 	alloc := c10Allocs() - before
+	if alloc > 256<<20 {
+		// the address space a huge allocation reserved stays counted against ulimit -v: continue in
+		// a fresh worker so that later cases are not blamed for it
+		c.RestartWorker()
+	}
 	c.Eval()
 	c.State([]byte(cs.target.name), cs.input)
 	c.Nontrivial([]byte(cs.target.name), cs.input)
